@@ -28,7 +28,7 @@ THEOREMS = [
     "Cog.Front.OpenApi.parser_sound", "Cog.Front.OpenApi.sound_core", "Cog.Front.OpenApi.frontEnd_spec", "Cog.Front.OpenApi.oview_of",
     # the same for CUE inputs (model of internal/simplecue on the view of the cue.Value; verifkit/front_cue.py)
     "Cog.Sem.CUE.C01_cue_parser_sound_partial", "Cog.Sem.CUE.C01_cue_parser_sound_fuel_partial", "Cog.Sem.CUE.C01_cue_parser_sound_agree_partial",
-    "Cog.Sem.CUE.C01_cue_end_to_end_partial", "Cog.Sem.CUE.C01_cue_parser_sound_counterexample",
+    "Cog.Sem.CUE.C01_cue_end_to_end_partial", "Cog.Sem.CUE.C01_cue_parser_sound_counterexample", "Cog.Sem.CUE.C01_cue_parser_sound_counterexample_required_constant",
     "Cog.Front.Cue.parser_sound", "Cog.Front.Cue.sound_core", "Cog.Front.Cue.def_sound",
 ]
 
